@@ -15,12 +15,15 @@ from .objhook import make_hook
 M = "rtcsctptransport"
 
 
-def build(prog: Program):
+def build(prog: Program, stubs=None):
+    """stubs: {callee text: fn(call, ev) -> value} consulted before anything else (collaborators replaced by recorders)."""
     mod = prog.module(M)
     FIRST, LAST, UNORD = (prog.const(mod, n) for n in ("SCTP_DATA_FIRST_FRAG", "SCTP_DATA_LAST_FRAG", "SCTP_DATA_UNORDERED"))
 
     def extra(call: ast.Call, ev: Evaluator) -> Any:
         name = unparse(call.func)
+        if stubs and name in stubs:
+            return stubs[name](call, ev)
         if name == "time.time":
             return 1000.0
         if name == "cast" and len(call.args) == 2:
